@@ -1,6 +1,7 @@
 """
-C13 finding 1: an attribute that is only declared by a "@type" field is HIDDEN by default and
-no --privacy rule (exact or pattern) can change that.
+C13 finding 1: an object whose 'kind' is None is HIDDEN whatever its name and whatever the --privacy rules say.
+This happens to an ordinary, assigned and documented module variable as soon as the module docstring
+gives its type with a "@type" field (and to attributes that are declared by a "@type" field only).
 
 Run: cd /tmp && PYTHONPATH=/tmp/hunt-C13 /venv/bin/python /tmp/hunt-C13/found/1/demo.py
 """
@@ -13,11 +14,23 @@ tmp = tempfile.mkdtemp(prefix='c13-1-')
 os.chdir(tmp)
 
 Path(tmp, 'mod.py').write_text('''\
+"""
+Module doc.
+
+@type x: int
+"""
+
+x = len('abc')
+"""The x."""
+
+y = len('abc')
+"""The y (control: no @type field)."""
+
 class C:
     """
     A class.
 
-    @type x: int
+    @type t: int
     """
 ''')
 
@@ -37,29 +50,38 @@ def privacy_of(fullname, rules):
 
 problems = []
 
-# 1. no rule at all: 'x' has no leading underscore => the documented default is PUBLIC
-#    (the manual even says "HIDDEN: Nothing is hidden by default").
-got, kind = privacy_of('mod.C.x', [])
-if got != 'PUBLIC':
-    problems.append(f"no rules: mod.C.x (kind={kind}) is {got}, expected PUBLIC (name has no leading underscore)")
+# control: the same variable without a @type field behaves as documented
+assert privacy_of('mod.y', [])[0] == 'PUBLIC'
+assert privacy_of('mod.y', ['PUBLIC:**', 'PRIVATE:mod.?'])[0] == 'PRIVATE'
+assert privacy_of('mod.y', ['HIDDEN:mod.y', 'PRIVATE:mod.?'])[0] == 'HIDDEN'
 
-# 2. an exact rule must override everything.
-got, kind = privacy_of('mod.C.x', ['PUBLIC:mod.C.x'])
-if got != 'PUBLIC':
-    problems.append(f"--privacy=PUBLIC:mod.C.x (exact rule): mod.C.x is {got}, expected PUBLIC")
-
-# 3. the manual's 'PUBLIC:**' ("Makes everything public"), and a PRIVATE rule given last.
-got, kind = privacy_of('mod.C.x', ['PUBLIC:**'])
-if got != 'PUBLIC':
-    problems.append(f"--privacy=PUBLIC:**: mod.C.x is {got}, expected PUBLIC")
-got, kind = privacy_of('mod.C.x', ['PUBLIC:**', 'PRIVATE:mod.C.?'])
-if got != 'PRIVATE':
-    problems.append(f"--privacy=PUBLIC:** --privacy=PRIVATE:mod.C.?: mod.C.x is {got}, expected PRIVATE (last matching pattern rule)")
+for fn, pat in (('mod.x', 'mod.?'), ('mod.C.t', 'mod.C.?')):
+    # 1. no rule at all: the name has no leading underscore => the documented default is PUBLIC
+    #    (the manual even says "HIDDEN: Nothing is hidden by default").
+    got, kind = privacy_of(fn, [])
+    if got != 'PUBLIC':
+        problems.append(f"no rules: {fn} (kind={kind}) is {got}, expected PUBLIC (no leading underscore)")
+    # 2. an exact rule must override everything.
+    got, kind = privacy_of(fn, ['PUBLIC:' + fn])
+    if got != 'PUBLIC':
+        problems.append(f"--privacy=PUBLIC:{fn} (exact rule): {fn} is {got}, expected PUBLIC")
+    # 3. the manual's 'PUBLIC:**' ("Makes everything public"), then a PRIVATE pattern rule given last.
+    got, kind = privacy_of(fn, ['PUBLIC:**'])
+    if got != 'PUBLIC':
+        problems.append(f"--privacy=PUBLIC:**: {fn} is {got}, expected PUBLIC")
+    got, kind = privacy_of(fn, ['PUBLIC:**', 'PRIVATE:' + pat])
+    if got != 'PRIVATE':
+        problems.append(f"--privacy=PUBLIC:** --privacy=PRIVATE:{pat}: {fn} is {got}, expected PRIVATE "
+                        f"(last matching pattern rule)")
 
 if problems:
-    print("PROPERTY C13 VIOLATED: the object mod.C.x (registered in system.allobjects, declared by the "
-          "'@type x: int' field of the docstring of class C) does not get the privacy that the documented "
-          "rules give to its qualified name: " + "; ".join(problems) + ". System.privacyClass() returns "
-          "HIDDEN for every object whose kind is None before looking at the name or at the --privacy rules.")
+    print("PROPERTY C13 VIOLATED: the module variable mod.x (assigned with 'x = len(\"abc\")', has its own "
+          "docstring, and its type is given by '@type x: int' in the module docstring) and the attribute "
+          "mod.C.t (declared by '@type t: int' in the docstring of class C) do not get the privacy that the "
+          "documented rules give to their qualified names, while the control variable mod.y does: "
+          + "; ".join(problems) + ". System.privacyClass() returns HIDDEN for every object whose kind is "
+          "None before it looks at the name or at the --privacy rules, and extract_fields() creates the "
+          "Attribute for a '@type' field with kind=None; ModuleVistor._handleModuleVar() never gives it a "
+          "kind when the assignment is visited (unlike _handleClassVar / _handleInstanceVar).")
     sys.exit(1)
 print("property holds")
